@@ -1,4 +1,388 @@
 import PyxisVerif.Spec.C17
+import PyxisVerif.Lemmas.C05
 /-! helper lemmas for C17 -/
 namespace PyxisVerif.C17
+open Gen
+
+def docStep (acc : Option (Option String)) (a : G.Attr) : Option (Option String) :=
+    match acc with
+    | none => none
+    | some doc =>
+      match a with
+      | .assign "doc" (.str v) =>
+        match doc with
+        | none => some (some v)
+        | some d => some (some (d ++ "\n" ++ v))
+      | .assign "doc" _ => none
+      | _ => some doc
+
+theorem docOf_eq (attrs : List G.Attr) : G.docOf attrs = attrs.foldl docStep (some none) := rfl
+
+/-- classification of an attribute w.r.t. docs -/
+inductive DocKind (a : G.Attr) : Prop
+  | str (v : String) (h : a = .assign "doc" (.str v))
+  | bad (h1 : ∀ doc, docStep (some doc) a = none) (h2 : docsAreStrings [a] = false)
+  | other (h1 : ∀ doc, docStep (some doc) a = some doc) (h2 : docStrings [a] = []) (h3 : docsAreStrings [a] = true)
+
+theorem docKind (a : G.Attr) : DocKind a := by
+  cases a with
+  | ident n => exact .other (fun _ => rfl) rfl rfl
+  | fn n args => exact .other (fun _ => rfl) rfl rfl
+  | assign n e =>
+    by_cases h : n = "doc"
+    · subst h
+      cases e with
+      | str v => exact .str v rfl
+      | int z => exact .bad (fun _ => rfl) rfl
+      | ident s => exact .bad (fun _ => rfl) rfl
+    · refine .other (fun _ => ?_) ?_ ?_
+      · unfold docStep; split <;> simp_all
+      · unfold docStrings; simp [List.filterMap]; split <;> simp_all
+      · unfold docsAreStrings; simp; split <;> simp_all
+theorem docStrings_cons (a : G.Attr) (l : List G.Attr) : docStrings (a :: l) = docStrings [a] ++ docStrings l := by
+  unfold docStrings
+  rw [← List.filterMap_append]; rfl
+
+theorem docsAreStrings_cons (a : G.Attr) (l : List G.Attr) :
+    docsAreStrings (a :: l) = (docsAreStrings [a] && docsAreStrings l) := by
+  simp [docsAreStrings]
+
+theorem foldl_docStep_none (l : List G.Attr) : l.foldl docStep none = none := by
+  induction l with
+  | nil => rfl
+  | cons a l ih => exact ih
+
+theorem foldl_docStep_some (d : String) (l : List G.Attr) (h : docsAreStrings l = true) :
+    l.foldl docStep (some (some d)) = some (some ("\n".intercalate (d :: docStrings l))) := by
+  induction l generalizing d with
+  | nil => rfl
+  | cons a l ih =>
+    rw [docsAreStrings_cons, Bool.and_eq_true] at h
+    rw [List.foldl_cons, docStrings_cons]
+    cases docKind a with
+    | str v ha =>
+      subst ha
+      have : docStep (some (some d)) (.assign "doc" (.str v)) = some (some (d ++ "\n" ++ v)) := rfl
+      rw [this, ih _ h.2]
+      have : docStrings [G.Attr.assign "doc" (.str v)] = [v] := rfl
+      rw [this, List.singleton_append, String.intercalate_cons_cons, String.intercalate_cons_append]
+    | bad h1 h2 => rw [h2] at h; exact absurd h.1 (by decide)
+    | other h1 h2 h3 => rw [h1, h2]; exact ih _ h.2
+
+theorem foldl_docStep_start (l : List G.Attr) (h : docsAreStrings l = true) :
+    l.foldl docStep (some none) =
+      some (if docStrings l = [] then none else some ("\n".intercalate (docStrings l))) := by
+  induction l with
+  | nil => rfl
+  | cons a l ih =>
+    rw [docsAreStrings_cons, Bool.and_eq_true] at h
+    rw [List.foldl_cons, docStrings_cons]
+    cases docKind a with
+    | str v ha =>
+      subst ha
+      exact foldl_docStep_some v l h.2
+    | bad h1 h2 => rw [h2] at h; exact absurd h.1 (by decide)
+    | other h1 h2 h3 => rw [h1, h2]; exact ih h.2
+
+theorem foldl_docStep_bad (acc : Option (Option String)) (l : List G.Attr) (h : docsAreStrings l = false) :
+    l.foldl docStep acc = none := by
+  induction l generalizing acc with
+  | nil => exact absurd h (by decide)
+  | cons a l ih =>
+    rw [docsAreStrings_cons] at h
+    rw [List.foldl_cons]
+    cases acc with
+    | none => exact foldl_docStep_none _
+    | some doc =>
+      cases docKind a with
+      | str v ha =>
+        subst ha
+        exact ih _ (by simpa [docsAreStrings] using h)
+      | bad h1 h2 => rw [h1]; exact foldl_docStep_none _
+      | other h1 h2 h3 => rw [h1]; rw [h3] at h; exact ih _ (by simpa using h)
+theorem splitNl_no_nl (l : List Char) (h : '\n' ∉ l) : Emit.splitNl l = [l] := by
+  induction l with
+  | nil => rfl
+  | cons c cs ih =>
+    have hc : c ≠ '\n' := fun e => h (e ▸ List.mem_cons_self)
+    have hcs : '\n' ∉ cs := fun e => h (List.mem_cons_of_mem _ e)
+    unfold Emit.splitNl
+    rw [if_neg hc, ih hcs]
+
+theorem splitNl_append_nl (l rest : List Char) (h : '\n' ∉ l) :
+    Emit.splitNl (l ++ '\n' :: rest) = l :: Emit.splitNl rest := by
+  induction l with
+  | nil => simp [Emit.splitNl]
+  | cons c cs ih =>
+    have hc : c ≠ '\n' := fun e => h (e ▸ List.mem_cons_self)
+    have hcs : '\n' ∉ cs := fun e => h (List.mem_cons_of_mem _ e)
+    rw [List.cons_append, Emit.splitNl, if_neg hc, ih hcs]
+
+theorem splitNl_intercalate (l : List Char) (ls : List (List Char)) (h : ∀ x ∈ l :: ls, '\n' ∉ x) :
+    Emit.splitNl (['\n'].intercalate (l :: ls)) = l :: ls := by
+  induction ls generalizing l with
+  | nil => simpa using splitNl_no_nl l (h l List.mem_cons_self)
+  | cons l' zs ih =>
+    rw [List.intercalate_cons_cons, List.append_assoc, List.singleton_append,
+      splitNl_append_nl _ _ (h l List.mem_cons_self), ih l' (fun x hx => h x (List.mem_cons_of_mem _ hx))]
+
+theorem strLines_intercalate (d : String) (ds : List String) (h : ∀ x ∈ d :: ds, '\n' ∉ x.toList) :
+    Emit.strLines ("\n".intercalate (d :: ds)) = d :: ds := by
+  unfold Emit.strLines
+  rw [String.toList_intercalate]
+  have : "\n".toList = ['\n'] := rfl
+  rw [this, List.map_cons, splitNl_intercalate]
+  · simp [String.ofList_toList]
+  · intro x hx
+    rw [← List.map_cons, List.mem_map] at hx
+    obtain ⟨y, hy, rfl⟩ := hx
+    exact h y hy
+
+theorem docLines_docOf (attrs : List G.Attr) (h : docsAreStrings attrs = true)
+    (hn : ∀ d ∈ docStrings attrs, '\n' ∉ d.toList) :
+    (G.docOf attrs).map Emit.docLines = some (docStrings attrs) := by
+  rw [docOf_eq, foldl_docStep_start attrs h]
+  cases hds : docStrings attrs with
+  | nil => rfl
+  | cons d ds =>
+    rw [hds] at hn
+    simp only [Option.map_some, Emit.docLines]
+    rw [if_neg (by simp)]
+    simp only
+    rw [strLines_intercalate d ds hn]
+/-! ## marker attributes -/
+
+theorem hasIdent_cons (a : G.Attr) (l : List G.Attr) (n : String) :
+    hasIdent (a :: l) n = (a == .ident n || hasIdent l n) := by
+  simp [hasIdent]
+
+theorem beq_dec {α} [DecidableEq α] (a b : α) : (a == b) = decide (a = b) := rfl
+
+theorem typeAttrStep_flags (st st' : TypeAttrs) (a : G.Attr) (h : typeAttrStep st a = .ok st') :
+    st'.copyable = (st.copyable || a == .ident "copyable")
+    ∧ st'.cloneable = (st.cloneable || a == .ident "copyable" || a == .ident "cloneable")
+    ∧ st'.defaultable = (st.defaultable || a == .ident "defaultable")
+    ∧ st'.packed = (st.packed || a == .ident "packed") := by
+  unfold typeAttrStep at h
+  split at h
+  · split at h
+    · cases h; simp [beq_dec]
+    · cases h
+  · split at h
+    · cases h; simp [beq_dec]
+    · cases h
+  · split at h
+    · cases h; simp [beq_dec]
+    · cases h
+  · cases h; simp [beq_dec]
+  · cases h; simp [beq_dec]
+  · cases h; simp [beq_dec]
+  · cases h; simp [beq_dec]
+  · cases h
+    cases a <;> simp_all [beq_dec]
+
+theorem typeAttr_fold (attrs : List G.Attr) (st ta : TypeAttrs) (h : Res.foldlM typeAttrStep st attrs = .ok ta) :
+    ta.copyable = (st.copyable || hasIdent attrs "copyable")
+    ∧ ta.cloneable = (st.cloneable || hasIdent attrs "copyable" || hasIdent attrs "cloneable")
+    ∧ ta.defaultable = (st.defaultable || hasIdent attrs "defaultable")
+    ∧ ta.packed = (st.packed || hasIdent attrs "packed") := by
+  induction attrs generalizing st with
+  | nil => simp only [Res.foldlM] at h; cases h; simp [hasIdent]
+  | cons a l ih =>
+    simp only [Res.foldlM] at h
+    split at h
+    · next st' hst =>
+      obtain ⟨h1, h2, h3, h4⟩ := typeAttrStep_flags st st' a hst
+      obtain ⟨i1, i2, i3, i4⟩ := ih st' h
+      simp only [hasIdent_cons]
+      rw [i1, i2, i3, i4, h1, h2, h3, h4]
+      refine ⟨?_, ?_, ?_, ?_⟩ <;> (simp only [Bool.or_assoc]; try (generalize (a == _) = x; generalize (a == _) = y; cases x <;> cases y <;> simp))
+    all_goals cases h
+theorem enumAttrStep_flags (st st' : EnumAttrs) (a : G.Attr) (h : enumAttrStep st a = .ok st') :
+    st'.copyable = (st.copyable || a == .ident "copyable")
+    ∧ st'.cloneable = (st.cloneable || a == .ident "copyable" || a == .ident "cloneable")
+    ∧ st'.defaultable = (st.defaultable || a == .ident "defaultable") := by
+  unfold enumAttrStep at h
+  split at h
+  · cases h; simp [beq_dec]
+  · cases h; simp [beq_dec]
+  · cases h; simp [beq_dec]
+  · split at h
+    · cases h; simp [beq_dec]
+    · cases h
+  · cases h
+    cases a <;> simp_all [beq_dec]
+
+theorem enumAttr_fold (attrs : List G.Attr) (st ea : EnumAttrs) (h : Res.foldlM enumAttrStep st attrs = .ok ea) :
+    ea.copyable = (st.copyable || hasIdent attrs "copyable")
+    ∧ ea.cloneable = (st.cloneable || hasIdent attrs "copyable" || hasIdent attrs "cloneable")
+    ∧ ea.defaultable = (st.defaultable || hasIdent attrs "defaultable") := by
+  induction attrs generalizing st with
+  | nil => simp only [Res.foldlM] at h; cases h; simp [hasIdent]
+  | cons a l ih =>
+    simp only [Res.foldlM] at h
+    split at h
+    · next st' hst =>
+      obtain ⟨h1, h2, h3⟩ := enumAttrStep_flags st st' a hst
+      obtain ⟨i1, i2, i3⟩ := ih st' h
+      simp only [hasIdent_cons]
+      rw [i1, i2, i3, h1, h2, h3]
+      refine ⟨?_, ?_, ?_⟩ <;> (simp only [Bool.or_assoc]; try (generalize (a == _) = x; generalize (a == _) = y; cases x <;> cases y <;> simp))
+    all_goals cases h
+
+theorem type_flags_aux (attrs : List G.Attr) (ta : TypeAttrs) (h : Res.foldlM typeAttrStep {} attrs = .ok ta) :
+    Emit.derivesOf ta.copyable ta.cloneable ta.defaultable = specDerives attrs
+    ∧ ta.packed = hasIdent attrs "packed" := by
+  obtain ⟨h1, h2, h3, h4⟩ := typeAttr_fold attrs {} ta h
+  simp only [Bool.false_or] at h1 h2 h3 h4
+  rw [h1, h2, h3, h4]
+  exact ⟨rfl, rfl⟩
+
+theorem enum_flags_aux (attrs : List G.Attr) (ea : EnumAttrs) (h : Res.foldlM enumAttrStep {} attrs = .ok ea) :
+    Emit.derivesOf ea.copyable ea.cloneable ea.defaultable = specDerives attrs := by
+  obtain ⟨h1, h2, h3⟩ := enumAttr_fold attrs {} ea h
+  simp only [Bool.false_or] at h1 h2 h3
+  rw [h1, h2, h3]
+  rfl
+
+/-! ## functions -/
+
+theorem function_doc_vis_aux (reg : Registry) (scope : List Path) (v : Bool) (f : G.Func) (sf : SFunc)
+    (h : buildFunction reg scope v f = .ok sf) : G.docOf f.attrs = some sf.doc ∧ sf.vis = f.vis := by
+  obtain ⟨doc, st, body, args, ret, hdoc, _, _, _, _, hv, _, hd, _⟩ := buildFunction_ok reg scope v f sf h
+  rw [hd]; exact ⟨hdoc, hv⟩
+
+def injStep (baseName : String) (acc : InjAcc) (f : SFunc) : InjAcc :=
+    let name := if acc.used.contains f.name then fmtRenamed baseName f.name else f.name
+    let f' := { f with name, body := .field baseName f.name }
+    { fns := acc.fns ++ [f'], used := name :: acc.used }
+
+theorem injFold (base : String) (l : List SFunc) (acc : InjAcc) :
+    ∀ g ∈ (l.foldl (injStep base) acc).fns, g ∈ acc.fns ∨
+      ∃ f ∈ l, g.doc = f.doc ∧ g.vis = f.vis ∧ g.args = f.args ∧ g.ret = f.ret ∧ g.cc = f.cc
+        ∧ g.body = .field base f.name := by
+  induction l generalizing acc with
+  | nil => intro g hg; exact .inl hg
+  | cons f fs ih =>
+    intro g hg
+    rw [List.foldl_cons] at hg
+    rcases ih _ g hg with h | ⟨f', hf', hh⟩
+    · simp only [injStep, List.mem_append, List.mem_singleton] at h
+      rcases h with h | h
+      · exact .inl h
+      · subst h
+        exact .inr ⟨f, List.mem_cons_self, rfl, rfl, rfl, rfl, rfl, rfl⟩
+    · exact .inr ⟨f', List.mem_cons_of_mem _ hf', hh⟩
+
+theorem inherited_aux (base : String) (acc : InjAcc) (fs : List SFunc) :
+    ∀ g ∈ (addFunctions base acc fs).fns, g ∈ acc.fns ∨
+      ∃ f ∈ fs, f.vis = .pub ∧ g.doc = f.doc ∧ g.vis = f.vis ∧ g.args = f.args ∧ g.ret = f.ret ∧ g.cc = f.cc
+        ∧ g.body = .field base f.name := by
+  intro g hg
+  have : addFunctions base acc fs = (fs.filter SFunc.isPublic).foldl (injStep base) acc := rfl
+  rw [this] at hg
+  rcases injFold base _ acc g hg with h | ⟨f, hf, hh⟩
+  · exact .inl h
+  · rw [List.mem_filter] at hf
+    refine .inr ⟨f, hf.1, ?_, hh⟩
+    have := hf.2
+    simpa [SFunc.isPublic] using this
+
+/-! ## padding -/
+
+theorem cast_ne_ok' {α β} (e : Res α) (b : β) : (e.cast : Res β) ≠ .ok b := by
+  cases e <;> simp [Res.cast]
+
+theorem srcRegion_ok (reg : Registry) (p : Layout.Placed Region) (r : Region)
+    (h : (match p.src with
+      | some r => Res.ok r
+      | none => match reg.paddingType p.size with
+        | .ok t => Res.ok ({ vis := .priv, name := none, doc := none, ty := .data t, isBase := false } : Region)
+        | e => e.cast) = .ok r) :
+    p.src = some r ∨ (p.src = none ∧ r.vis = .priv ∧ r.doc = none ∧ r.name = none) := by
+  cases hsrc : p.src with
+  | some r0 => rw [hsrc] at h; cases h; exact .inl rfl
+  | none =>
+    rw [hsrc] at h
+    simp only at h
+    split at h
+    · cases h; exact .inr ⟨rfl, rfl, rfl, rfl⟩
+    · exact absurd h (cast_ne_ok' _ _)
+
+/-- the renaming of an unnamed region -/
+def renamed (off : Nat) (r : Region) : Region :=
+  match r.name with
+  | some _ => r
+  | none => { vis := .priv, name := some (fmtPaddingField (toHexLower off)), doc := none, ty := r.ty, isBase := false }
+
+theorem renamed_named (off : Nat) (r : Region) (h : r.name.isSome) : renamed off r = r := by
+  unfold renamed
+  cases hn : r.name with
+  | none => rw [hn] at h; cases h
+  | some _ => rfl
+
+theorem renamed_unnamed (off : Nat) (r : Region) (h : r.name = none) :
+    (renamed off r).vis = .priv ∧ (renamed off r).doc = none := by
+  unfold renamed; rw [h]; exact ⟨rfl, rfl⟩
+
+theorem nameRegions_cons (reg : Registry) (off : Nat) (p : Layout.Placed Region) (ps : List (Layout.Placed Region))
+    (regions : List Region) (h : nameRegions reg off (p :: ps) = .ok regions) :
+    ∃ r rs, (p.src = some r ∨ (p.src = none ∧ r.vis = .priv ∧ r.doc = none ∧ r.name = none))
+      ∧ nameRegions reg (off + p.size) ps = .ok rs ∧ regions = renamed off r :: rs := by
+  unfold nameRegions at h
+  split at h
+  · next r hr =>
+    simp only at h
+    split at h
+    · next rs hrs =>
+      cases h
+      exact ⟨r, rs, srcRegion_ok reg p r hr, hrs, rfl⟩
+    · next e hne => exact absurd h (hne _)
+  · exact absurd h (cast_ne_ok' _ _)
+
+theorem nameRegions_spec (reg : Registry) (off : Nat) (placed : List (Layout.Placed Region)) (regions : List Region)
+    (h : nameRegions reg off placed = .ok regions) :
+    ∀ k (hk : k < placed.length) (hk' : k < regions.length),
+      (placed[k].src = none → regions[k].vis = .priv ∧ regions[k].doc = none)
+      ∧ (∀ r, placed[k].src = some r → r.name.isSome → regions[k] = r)
+      ∧ (∀ r, placed[k].src = some r → r.name = none → regions[k].vis = .priv ∧ regions[k].doc = none) := by
+  induction placed generalizing off regions with
+  | nil => intro k hk; exact absurd hk (by simp)
+  | cons p ps ih =>
+    obtain ⟨r, rs, hsrc, hrs, rfl⟩ := nameRegions_cons reg off p ps regions h
+    intro k hk hk'
+    cases k with
+    | succ k =>
+      simp only [List.getElem_cons_succ]
+      exact ih _ rs hrs k (by simpa using hk) (by simpa using hk')
+    | zero =>
+      simp only [List.getElem_cons_zero]
+      rcases hsrc with hsrc | ⟨hsrc, hv, hd, hn⟩
+      · rw [hsrc]
+        refine ⟨(by intro h; cases h), ?_, ?_⟩
+        · intro r' hr' hn'
+          cases hr'
+          exact renamed_named off r hn'
+        · intro r' hr' hn'
+          cases hr'
+          exact renamed_unnamed off r hn'
+      · rw [hsrc]
+        exact ⟨fun _ => renamed_unnamed off r hn, (by intro r' h; cases h), (by intro r' h; cases h)⟩
+/-! ## emitted shapes -/
+
+theorem typeItems_head (reg : Registry) (path : Path) (size align : Nat) (vis : Vis) (td : TypeDefn) :
+    ∃ tl, Emit.typeItems reg path size align vis td =
+      Sexp.mk "struct" ([Emit.docsS td.doc,
+        Sexp.mk "derives" ((Emit.derivesOf td.copyable td.cloneable td.defaultable).map .str),
+        Sexp.mk "repr" (if td.packed then [.str "C", .str "packed"] else [.str "C", .str ("align(" ++ toString align ++ ")")]),
+        Emit.visS vis, .str (path.getLast?.getD "")] ++
+        td.regions.map fun r => Sexp.mk "fld" [Emit.docsS r.doc, Emit.visS r.vis, .str (r.name.getD ""), .str (Emit.rtyStr r.ty)])
+      :: tl := by
+  unfold Emit.typeItems
+  exact ⟨_, rfl⟩
+
+theorem methodS_head (f : SFunc) :
+    ∃ tl, Emit.methodS f = Sexp.mk "method" (Emit.docsS f.doc :: Emit.visS f.vis :: .str f.name :: tl) := by
+  unfold Emit.methodS
+  exact ⟨_, rfl⟩
 end PyxisVerif.C17
